@@ -114,7 +114,6 @@ where
         // ANCHOR_END: resolve_sig
     {
         let resolve_result = request.resolve(result);
-        debug_assert!(resolve_result.is_ok());
 
         resolve_result?;
 
